@@ -178,7 +178,9 @@ def gen_scenario(seed, variant=None):
     horizon = max(H, max(a[0] for a in actions)) + 2.0
     # once in a while a request the transport cannot write (text instead of bytes): it has to fail, once, and leave
     # the others alone
-    unwritable = [i for i in ids if rng.random() < 0.04] if not (variant or {}).get("n_req") else []
+    # (drawn from a stream of its own: the main stream decides everything else)
+    rng_u = random.Random((seed * 2654435761) ^ 0xBADB17E5)
+    unwritable = [i for i in ids if rng_u.random() < 0.04] if not (variant or {}).get("n_req") else []
     # things done from inside a request's completion callback (re-entrancy)
     on_fire = {}
     extra_ids = []
@@ -250,6 +252,60 @@ def gen_scenario(seed, variant=None):
                 chunk=variant.get("chunk", rng.choice(("whole", "whole", "bytes", "random", "coalesce", "prefix_split",
                                                        "mixed"))),
                 retry_base=rng.choice((0.05, 0.2, 1.0)), retry_step=rng.choice((0.0, 0.07, 0.5)))
+
+
+def pattern_scenario(seed):
+    """Hand-shaped situations the random stream reaches only now and then: what the request table looks like when the
+    connection is lost or the client is closed (cancelled entries among live ones, callbacks that cancel siblings)."""
+    rng = random.Random(seed ^ 0x9A77E24)
+    n = rng.randint(3, 7)
+    ids = rng.sample(range(1, 2 ** 31 - 1), n)
+    kind = rng.choice(("lost_with_cancelled", "lost_with_cancelled", "close_cancels_sibling", "close_cancels_sibling",
+                       "lost_then_close"))
+    t0 = [round(rng.choice((0.0, 0.0, 0.01, 0.03)) * k, 4) for k in range(n)]
+    actions = [[t0[k], "req", i, True] for k, i in enumerate(ids)]
+    on_fire, behaviour, cuts, connect = {}, [], {}, ["accept"] * 12
+    end = "heal"
+    horizon = 3.0
+    if kind in ("lost_with_cancelled", "lost_then_close"):
+        # every request is written and unanswered; some are cancelled; then the connection goes away; after the
+        # reconnect the survivors are answered
+        cut_t = round(rng.uniform(0.3, 0.8), 4)
+        for k, i in enumerate(ids):
+            behaviour.append([i, 0, ["never"] if rng.random() < 0.7 else ["delay", 1.5]])
+            behaviour.append([i, 1, ["now"] if rng.random() < 0.7 else ["delay", 0.02]])
+            behaviour.append([i, 2, ["now"]])
+        victims = rng.sample(ids, rng.randint(1, max(1, n - 2)))
+        if rng.random() < 0.5:
+            victims = sorted(set(victims + [ids[0]]), key=ids.index)
+        for v in victims:
+            actions.append([round(rng.uniform(0.1, cut_t - 0.05), 4), "cancel", v])
+        cuts = {"0": ["time", cut_t]}
+        if rng.random() < 0.4:
+            cuts["1"] = ["time", round(cut_t + rng.uniform(0.3, 0.6), 4)]
+        if kind == "lost_then_close":
+            end = "close"
+    else:
+        # nothing is ever written (no connection comes up); close() fails the requests and their callbacks cancel
+        # siblings / issue requests / close again
+        connect = [rng.choice(("refuse", "blackhole", "refuse"))] * 12
+        for i in ids:
+            for nth in range(3):
+                behaviour.append([i, nth, ["now"]])
+        for i in ids:
+            r = rng.random()
+            if r < 0.6:
+                on_fire[str(i)] = ["cancel_other", rng.choice([x for x in ids if x != i])]
+            elif r < 0.7:
+                on_fire[str(i)] = ["close", None]
+        if rng.random() < 0.3:
+            actions.append([round(rng.uniform(0.1, 1.0), 4), "cancel", rng.choice(ids)])
+        end = "close"
+    actions.sort(key=lambda a: a[0])
+    return dict(seed=seed, ids=ids, on_fire=on_fire, extra_ids=[], unwritable=[], actions=actions, behaviour=behaviour,
+                injections=[], connect=connect, cuts=cuts, end=end, horizon=horizon, pattern=kind,
+                latency=rng.choice((0.0, 0.002, 0.02)), chunk=rng.choice(("whole", "bytes", "random")),
+                retry_base=rng.choice((0.05, 0.2)), retry_step=rng.choice((0.0, 0.07)))
 
 
 class Trace(object):
